@@ -223,6 +223,9 @@ fn part(in_order: bool) -> HistPart<Mon, impl Fn(&Setup) -> Mon + Sync> {
     p.timers_weight = 45;
     p.max_len = 140;
     p.set_config = true;
+    // includes attempts to enable a periodic task or change the probe timing at run time (documented
+    // to be refused): an accepted "enable" would leave an enabled task without any timer
+    p.illegal_config = true;
     let sp = SetupProfile::default();
     HistPart {
         name: if in_order { "deadline-order" } else { "any-order" },
@@ -299,7 +302,7 @@ pub fn run(ctx: &Ctx, report: &mut Report) -> EvidenceMeta {
     ctx.run_part(&part(false), report);
     EvidenceMeta {
         level: "exploration",
-        rule: "(0) complete enumeration: for each of the 257 possible numbers k of earlier identity changes (so the 8-bit token takes every value, including the wrap) and each of 5 epoch changes (leave, idle, change_identity, Defunct, Rejoin): become active with probe, indirect-probe, suspicion and all periodic timers pending, change epoch, then deliver every older timer; (1, 2) proptest random single-instance histories in which the harness is a runtime delivering every scheduled timer at most once (never twice, never invented): part 'deadline-order' always delivers the earliest deadline (ties by Timer's Ord), part 'any-order' any outstanding timer; interleaved with datagrams / API calls causing Idle, Active, Defunct, Rejoin, change_identity, reuse_down_identity, for all combinations of periodic tasks and set_config changes. Oracle after every call: timer token moves exactly with the notification-inferred epoch; active => exactly one ProbeRandomMember and one timer per enabled periodic task outstanding with the current token (<= 1 inert left-over for a task disabled by set_config); not active => no outstanding timer carries the current token; stale timers are Ok(()) with no effect and no state change; deadline order => no error; any order => at most IncompleteProbeCycle and probing resumed. Non-trivial: >= 2 epoch changes followed by a stale timer delivery, or set_config disabling a running task."
+        rule: "(0) complete enumeration: for each of the 257 possible numbers k of earlier identity changes (so the 8-bit token takes every value, including the wrap) and each of 5 epoch changes (leave, idle, change_identity, Defunct, Rejoin): become active with probe, indirect-probe, suspicion and all periodic timers pending, change epoch, then deliver every older timer; (1, 2) proptest random single-instance histories in which the harness is a runtime delivering every scheduled timer at most once (never twice, never invented): part 'deadline-order' always delivers the earliest deadline (ties by Timer's Ord), part 'any-order' any outstanding timer; interleaved with datagrams / API calls causing Idle, Active, Defunct, Rejoin, change_identity, reuse_down_identity, for all combinations of periodic tasks and set_config changes (including the ones documented to be refused: enabling a task, changing the probe timing). Oracle after every call: timer token moves exactly with the notification-inferred epoch; active => exactly one ProbeRandomMember and one timer per enabled periodic task outstanding with the current token (<= 1 inert left-over for a task disabled by set_config); not active => no outstanding timer carries the current token; stale timers are Ok(()) with no effect and no state change; deadline order => no error; any order => at most IncompleteProbeCycle and probing resumed. Non-trivial: >= 2 epoch changes followed by a stale timer delivery, or set_config disabling a running task."
             .into(),
         assumptions: vec![
             "fewer than 256 epoch changes between issue and delivery (histories are <= 140 calls)".into(),
